@@ -90,6 +90,18 @@ func (e *Exec) ghostEffects(st *State, iter func(*State)) {
 			n := e.sc.Fresh("alloc", SInt)
 			e.sc.Assert(Ge(n, cur.T))
 			st.ghosts[k] = Val{T: n}
+		case strings.HasPrefix(k, "set:"):
+			// a collected set only grows
+			cur, ok := st.ghosts[k]
+			if !ok {
+				cur, _ = e.ghostSet(st, strings.TrimPrefix(k, "set:"))
+			}
+			n := e.sc.Fresh("ghost_"+k, srt)
+			if cur.T.S != "" {
+				es := strings.TrimSuffix(strings.TrimPrefix(srt, "(Array "), " Bool)")
+				e.sc.Assert(T(SBool, "(forall ((x "+es+")) (! (=> (select "+cur.T.S+" x) (select "+n.S+" x)) :pattern ((select "+n.S+" x))))"))
+			}
+			st.ghosts[k] = Val{T: n}
 		default:
 			if k == "trace" {
 				e.declEvent()
